@@ -71,6 +71,9 @@ pub struct Oracle {
     probed: BTreeSet<Entity>,
     liveness_checked: usize,
     liveness_excused: bool,
+    c06_epochs_done: BTreeSet<u64>,
+    c06_artifacts_done: BTreeSet<String>,
+    pub avk_by_epoch: BTreeMap<u64, String>,
 }
 
 impl Oracle {
@@ -91,6 +94,9 @@ impl Oracle {
             probed: BTreeSet::new(),
             liveness_checked: 0,
             liveness_excused: false,
+            c06_epochs_done: BTreeSet::new(),
+            c06_artifacts_done: BTreeSet::new(),
+            avk_by_epoch: BTreeMap::new(),
         }
     }
 
@@ -165,7 +171,7 @@ impl Oracle {
         v
     }
 
-    fn same_avk(a: &str, b: &str) -> bool {
+    pub fn same_avk(a: &str, b: &str) -> bool {
         if a == b {
             return true;
         }
@@ -295,6 +301,10 @@ impl Oracle {
                     _ => {}
                 }
             }
+        }
+
+        if self.is("C06") {
+            self.check_client_path_c06(w, step);
         }
 
         // ---------------- single-signature rows (C16)
@@ -526,12 +536,137 @@ impl Oracle {
         }
     }
 
-    fn check_avk_c06(&mut self, w: &World, c: &CertificateRow, step: usize) {
-        if let Some(model) = self.model_avk(w, c.epoch)
+    /// C06: three computation paths (aggregator, signer, client) and every arrival order of the
+    /// registrations must give the same aggregate key / total stake / signer slots.
+    fn check_avk_c06(&mut self, w: &mut World, c: &CertificateRow, step: usize) {
+        let e = c.epoch;
+        // (a) aggregator vs model (registrations acknowledged, in party order)
+        if let Some(model) = self.model_avk(w, e)
             && !Self::same_avk(&model, &c.aggregate_verification_key)
         {
             self.report(step, "avk-differs-between-nodes", format!(
-                "the aggregator's certificate {} of epoch {} carries an aggregate key different from the one signers derive from the same registrations", short(&c.hash), c.epoch));
+                "the aggregator's certificate {} of epoch {e} carries an aggregate key different from the one derived from the same registrations", short(&c.hash)));
+        }
+        if !self.c06_epochs_done.insert(e) {
+            return;
+        }
+        // (b) signer path: the signer list as the aggregator publishes it (JSON in the loop, served
+        // order), plus permutations of it
+        let params = w.sc.parameters();
+        if w.view_epoch() == e
+            && let Some((pe, current, next)) = w.published_signers()
+            && pe == e
+            && !current.is_empty()
+        {
+            let mut orders: Vec<Vec<SignerWithStake>> = vec![current.clone()];
+            let mut rev = current.clone();
+            rev.reverse();
+            orders.push(rev);
+            let mut r = sim_core::Rng::for_run(w.sc.seed, "c06-orders", w.sc.run * 97 + e);
+            for _ in 0..3 {
+                let mut p = current.clone();
+                r.shuffle(&mut p);
+                orders.push(p);
+            }
+            // round trip of the signer list through its JSON message form
+            let parts = mithril_common::messages::SignerWithStakeMessagePart::from_signers(current.clone());
+            if let Ok(text) = serde_json::to_string(&parts)
+                && let Ok(back) = serde_json::from_str::<Vec<mithril_common::messages::SignerWithStakeMessagePart>>(&text)
+                && let Ok(signers) = mithril_common::messages::SignerWithStakeMessagePart::try_into_signers(back)
+            {
+                orders.push(signers);
+            }
+            let mut total_stakes = BTreeSet::new();
+            for (i, order) in orders.iter().enumerate() {
+                self.probe("c06_signer_path_orders");
+                match SignerBuilder::new(order, &params) {
+                    Ok(b) => {
+                        let avk = b.compute_aggregate_verification_key();
+                        total_stakes.insert(avk.to_concatenation_aggregate_verification_key().get_total_stake());
+                        let hex = avk_hex(&avk).unwrap_or_default();
+                        if !Self::same_avk(&hex, &c.aggregate_verification_key) {
+                            self.report(step, "avk-depends-on-order-or-path", format!(
+                                "epoch {e}: the aggregate key a signer derives from the published signer list (ordering #{i}: 0 = as served, 1 = reversed, 2-4 = shuffled, 5 = after a JSON round trip) differs from the key in the aggregator's certificate {}", short(&c.hash)));
+                        }
+                    }
+                    Err(err) => self.report(step, "avk-depends-on-order-or-path", format!("epoch {e}: ordering #{i} of the published signers is refused: {err:#}")),
+                }
+            }
+            if total_stakes.len() > 1 {
+                self.report(step, "total-stake-depends-on-order", format!("epoch {e}: total stake values {total_stakes:?}"));
+            }
+            // signer slot of each party: the same under two arrival orders
+            let message = "c06-slot-probe".to_string();
+            for party in 0..w.parties.len() {
+                let Some(key) = Self::key_in_force(w, party, e - 1, step).cloned() else { continue };
+                let slots: Vec<Option<u64>> = orders[..2]
+                    .iter()
+                    .map(|order| {
+                        SignerBuilder::new(order, &params)
+                            .ok()
+                            .and_then(|b| b.restore_signer_from_initializer(key.signer.party_id.clone(), key.initializer.clone()).ok())
+                            .and_then(|s| s.sign(&message).ok().flatten())
+                            .map(|sig| sig.to_protocol_signature().signer_index)
+                    })
+                    .collect();
+                if slots[0].is_some() && slots[1].is_some() && slots[0] != slots[1] {
+                    self.report(step, "signer-slot-depends-on-order", format!("epoch {e}: party {party} gets signer slot {:?} or {:?} depending on the order of the signer list", slots[0], slots[1]));
+                }
+                self.probe("c06_slot_probes");
+            }
+            // (c) distinct registration sets give distinct keys (next epoch's set vs this one's)
+            if !next.is_empty()
+                && let Ok(b) = SignerBuilder::new(&next, &params)
+            {
+                let next_hex = avk_hex(&b.compute_aggregate_verification_key()).unwrap_or_default();
+                let same_set = {
+                    let a: BTreeSet<(String, u64)> = current.iter().map(|s| (s.verification_key_for_concatenation.to_json_hex().unwrap_or_default(), s.stake)).collect();
+                    let b: BTreeSet<(String, u64)> = next.iter().map(|s| (s.verification_key_for_concatenation.to_json_hex().unwrap_or_default(), s.stake)).collect();
+                    a == b
+                };
+                if !same_set && Self::same_avk(&next_hex, &c.aggregate_verification_key) {
+                    self.report(step, "distinct-sets-same-avk", format!("epochs {e} and {} have different registration sets but the same aggregate key", e + 1));
+                }
+                self.avk_by_epoch.insert(e + 1, next_hex);
+            }
+        }
+        self.avk_by_epoch.insert(e, c.aggregate_verification_key.clone());
+    }
+
+    /// C06 client path: the stake-distribution artifact downloaded as JSON, re-computed by the
+    /// client's MessageBuilder, must reproduce the message signed in its certificate.
+    fn check_client_path_c06(&mut self, w: &mut World, step: usize) {
+        if !w.agg.is_up() {
+            return;
+        }
+        let Some(db) = w.db() else { return };
+        for se in db.signed_entities() {
+            let Entity::Msd(_) = se.entity else { continue };
+            if !self.c06_artifacts_done.insert(se.id.clone()) {
+                continue;
+            }
+            let (s1, artifact) = w.agg.http("GET", &format!("/aggregator/artifact/mithril-stake-distribution/{}", se.id), None);
+            let (s2, cert) = w.agg.http("GET", &format!("/aggregator/certificate/{}", se.certificate_id), None);
+            if s1 != 200 || s2 != 200 {
+                continue;
+            }
+            let (Ok(msd), Ok(cert)) = (
+                serde_json::from_str::<mithril_client::MithrilStakeDistribution>(&artifact),
+                serde_json::from_str::<mithril_client::MithrilCertificate>(&cert),
+            ) else {
+                self.report(step, "client-cannot-decode", format!("the client cannot decode the stake distribution artifact {} or its certificate", short(&se.id)));
+                continue;
+            };
+            self.probe("c06_client_path_recomputations");
+            match mithril_client::MessageBuilder::new().compute_mithril_stake_distribution_message(&cert, &msd) {
+                Ok(message) => {
+                    if !cert.match_message(&message) {
+                        self.report(step, "client-avk-differs", format!(
+                            "the aggregate key the client re-computes from the downloaded stake distribution {} does not reproduce the message signed in certificate {}", se.entity.label(), short(&cert.hash)));
+                    }
+                }
+                Err(e) => self.report(step, "client-avk-differs", format!("the client cannot re-compute the stake distribution message: {e:#}")),
+            }
         }
     }
 
